@@ -20,3 +20,6 @@ open Pandora.C03 Pandora.Blocks
 #print axioms Pandora.C03Kernels.toDisp_generated_cv
 #print axioms Pandora.C03Kernels.toDisp_generated_spec
 #print axioms Pandora.C03Kernels.carried_fields
+#print axioms Pandora.C03Kernels.toDispDataset_core
+#print axioms Pandora.C03Kernels.toDispDataset_frame
+#print axioms Pandora.C03Kernels.toDispDataset_private
